@@ -38,10 +38,12 @@ def main():
             lines = [l for l in r.stdout.splitlines() if l.startswith('VIOLATION') or l.startswith('[' + pid)]
             known = sum(1 for l in r.stdout.splitlines() if l.startswith('KNOWN-FINDING'))
             print('== %s: exit %d (%d known-finding lines)' % (pid, r.returncode, known))
-            for l in lines[:6]:
+            if any(l.startswith('VIOLATION') for l in lines):
+                caught = True
+            lines = [l for l in lines if l.startswith('VIOLATION')][:6] + [l for l in lines if not l.startswith('VIOLATION')][-2:]
+            for l in lines:
                 print('   ', l)
                 if l.startswith('VIOLATION'):
-                    caught = True
                     rp = l.split('replay=')[1].split()[0]
                     try:
                         d = json.load(open(rp))
